@@ -33,6 +33,8 @@ def evaluate(case):
     t = case["truth"]
     fail = rt.fail
     classes = RTM.classes_of(case, rt)
+    if not case.get("strict", True):
+        classes.append("strict=False")
     nontrivial = False
     ring_pairs = set()
     if fail is None:
@@ -112,8 +114,11 @@ def evaluate(case):
 
 
 def gen_case(ch):
-    return RTM.gen_case(ch, max_atoms=ch.weighted([(6, 12), (3, 24)]), stereo=80, brackets=15, aromatic=8, table_mode="fit",
-                        corpus_percent=10)
+    c = RTM.gen_case(ch, max_atoms=ch.weighted([(6, 12), (3, 24)]), stereo=80, brackets=15, aromatic=8, table_mode="fit",
+                     corpus_percent=10)
+    if c is not None and ch.bool(25):
+        c["strict"] = False      # 'every SMILES the encoder accepts': the strict flag must not matter for stereo
+    return c
 
 
 def gen_ringy(ch):
@@ -122,7 +127,7 @@ def gen_ringy(ch):
     w = GM.write(m, ch)
     if w is None:
         return None
-    return dict(table=RTM.table_for(ch, w["truth"], "fit"), smiles=w["smiles"], truth=w["truth"], source="generated")
+    return dict(table=RTM.table_for(ch, w["truth"], "fit"), smiles=w["smiles"], truth=w["truth"], source="generated", strict=ch.bool(75))
 
 
 def gen_digit_placement(ch):
